@@ -248,6 +248,23 @@ func extractStructure(e *env, f *facts) {
 	pushFn, doFn := p.fn("workerQueue.Push"), p.fn("workerQueue.do")
 	f.Bool["pushIsGetJobThenSpawn"] = len(pushFn.Body.List) == 1 && stmtIs(p, pushFn.Body.List[0], "if nextJob := c.getJob(job, 0); nextJob != nil { go c.do(nextJob) }")
 	f.Bool["doLoopsGetJob"] = len(doFn.Body.List) == 1 && stmtIs(p, doFn.Body.List[0], "for job != nil { job()\n job = c.getJob(nil, -1) }")
+	// the asynchronous write APIs do nothing but submit to the queue: Conn.Async is exactly `c.writeQueue.Push(f)`, and the
+	// only statement of WriteAsync / WritevAsync is a call of c.Async (no path around the queue, e.g. a fast path that runs
+	// the callback in the caller's goroutine)
+	onlySubmit := len(p.fn("Conn.Async").Body.List) == 1 && stmtIs(p, p.fn("Conn.Async").Body.List[0], "c.writeQueue.Push(f)")
+	for _, name := range []string{"Conn.WriteAsync", "Conn.WritevAsync"} {
+		b := p.fn(name).Body.List
+		ok := false
+		if len(b) == 1 {
+			if es, isE := b[0].(*ast.ExprStmt); isE {
+				if call, isC := es.X.(*ast.CallExpr); isC && src(p, call.Fun) == "c.Async" && len(call.Args) == 1 {
+					_, ok = call.Args[0].(*ast.FuncLit)
+				}
+			}
+		}
+		onlySubmit = onlySubmit && ok
+	}
+	f.Bool["asyncApisOnlySubmit"] = onlySubmit
 	gj := p.fn("workerQueue.getJob")
 	var gjs []string
 	for _, st := range gj.Body.List {
